@@ -7,7 +7,7 @@
 EXTENDS GcStress, Cases, TLCExt
 CONSTANTS N1, N2, Fuel
 
-Kinds == <<"array", "string", "tuple", "struct", "closure", "nested", "option", "growing">>
+Kinds == <<"array", "string", "tuple", "struct", "closure", "nested", "option", "growing", "worklist", "clearlist">>
 Fresh(kind) ==
   CASE kind = "array"  -> Arr(<<V("i"), V("i"), V("i")>>)
     [] kind = "string" -> Bin("..", S("item number "), V("i"))
@@ -17,15 +17,24 @@ Fresh(kind) ==
     [] kind = "nested" -> Arr(<<Arr(<<V("i")>>), Arr(<<V("i"), V("i")>>)>>)
     [] kind = "option" -> Some(V("i"))
     [] kind = "growing" -> Arr(<<V("i")>>)
+    [] kind \in {"worklist", "clearlist"} -> Tup(<<V("i"), V("i")>>)
+\* worklist / clearlist: one long-lived array is filled beyond 32 slots and drained again in every round
+Refill(kind) == <<Var("j", I(0)),
+                  While(Bin("<", V("j"), I(40)), <<Assign(V("j"), "+=", I(1)), ExprS(MCall(V("work"), "push", <<Tup(<<V("i"), V("j")>>)>>))>>)>> \o
+                (IF kind = "worklist"
+                 THEN <<While(Bin(">", MCall(V("work"), "len", <<>>), I(0)), <<Let("item", MCall(V("work"), "pop", <<>>))>>)>>
+                 ELSE <<ExprS(MCall(V("work"), "clear", <<>>))>>)
 Churn(kind, n) == File1(Types, <<>>, <<
    Let("longlived", Arr(<<I(1), I(2), I(3)>>)),
+   Let("work", Arr(<<Tup(<<I(0), I(0)>>)>>)),
    Var("i", I(0)),
    Var("acc", I(0)),
-   While(Bin("<", V("i"), I(n)), <<
+   While(Bin("<", V("i"), I(IF kind \in {"worklist", "clearlist"} THEN n \div 10 ELSE n)), <<
       Assign(V("i"), "+=", I(1)),
       Let("fresh", Fresh(kind)) >>
       \o (IF kind = "growing" THEN <<ExprS(MCall(V("fresh"), "push", <<V("i")>>)), ExprS(MCall(V("fresh"), "push", <<V("i")>>)),
                                       Assign(V("acc"), "=", MCall(V("fresh"), "len", <<>>))>>
+          ELSE IF kind \in {"worklist", "clearlist"} THEN Refill(kind) \o <<Assign(V("acc"), "=", MCall(V("work"), "len", <<>>))>>
           ELSE <<Assign(V("acc"), "=", Bin("%", Bin("+", V("acc"), V("i")), I(1000)))>>)),
    PrintS(V("acc")),
    PrintS(V("longlived")) >>)
